@@ -46,7 +46,7 @@ ForbidEdge(r)  == (r.verb = "should_not" /\ ~r.exc) \/ (r.verb = "should_only" /
 ForbidOther(r) == (r.verb = "should_not" /\ r.exc) \/ (r.verb = "should_only" /\ ~r.exc)   \* neg any
 
 RealisedN(D, I, r) ==
-    (IF ForbidEdge(r)  THEN UNION {EdgeSet(D, I, r, s, o) : s \in r.subs, o \in r.objs} ELSE {})
+    (IF ForbidEdge(r)  THEN UNION {UNION {EdgeSet(D, I, r, s, o) : o \in r.objs} : s \in r.subs} ELSE {})
       \cup
     (IF ForbidOther(r) THEN UNION {OtherSet(D, I, r, s) : s \in r.subs} ELSE {})
 
